@@ -215,6 +215,7 @@ package wallet
 //
 //@ func (*SingleAddressWallet).selectUTXOs props C07
 //@   nopanic
+//@   assigns nothing
 //@   requires sw != nil && sw.cm != nil && sw.store != nil
 //@   requires [config] sw.cfg.MaxDefragUTXOs >= 0
 //@   assumeafter UnspentSiacoinElements [in-sync] : forall m int :: { callres("UnspentSiacoinElements", 1)[m] } 0 <= m && m < len(callres("UnspentSiacoinElements", 1)) ==> !poolCreated(callres("UnspentSiacoinElements", 1)[m].ID)
@@ -308,3 +309,104 @@ package wallet
 //@   ensures [unspent-v2] result3 == nil ==> forall k int, q int, j int :: { result1[k], callres("V2PoolTransactions")[q].SiacoinInputs[j] } 0 <= k && k < len(result1) && 0 <= q && q < len(callres("V2PoolTransactions")) && 0 <= j && j < len(callres("V2PoolTransactions")[q].SiacoinInputs) ==> callres("V2PoolTransactions")[q].SiacoinInputs[j].Parent.ID != result1[k].ID
 //@   ensures [distinct] result3 == nil ==> forall a int, b int :: { result1[a], result1[b] } 0 <= a && a < b && b < len(result1) ==> result1[a].ID != result1[b].ID
 //@   ensures [confirmed-only] result3 == nil && !useUnconfirmed ==> forall k int :: { result1[k] } 0 <= k && k < len(result1) ==> !poolCreated(result1[k].ID)
+//
+// Reservations. locked[id] is the expiry of the reservation of id.
+//@ func (*SingleAddressWallet).cleanLockedUTXOs props C07
+//@   nopanic
+//@   requires sw != nil
+//@   assigns map:map[types.SiacoinOutputID]time.Time
+//@   loop "range sw.locked"
+//@     invariant sw == old(sw) && sw.locked == old(sw.locked)
+//@     invariant [kept] forall id types.SiacoinOutputID :: { id in sw.locked } id in sw.locked ==> old(id in sw.locked) && sw.locked[id] == old(sw.locked[id]) && (visited(id) ==> !time.Now().After(sw.locked[id]))
+//@     invariant [dropped] forall id types.SiacoinOutputID :: { old(id in sw.locked) } old(id in sw.locked) && !(id in sw.locked) ==> time.Now().After(old(sw.locked[id]))
+//@   ensures [expired-only] forall id types.SiacoinOutputID :: { id in sw.locked } (id in sw.locked) <==> (old(id in sw.locked) && !time.Now().After(old(sw.locked[id])))
+//@   ensures [values] forall id types.SiacoinOutputID :: { id in sw.locked } id in sw.locked ==> sw.locked[id] == old(sw.locked[id])
+//
+//@ func (*SingleAddressWallet).lockUTXOs props C07
+//@   nopanic
+//@   requires sw != nil && sw.locked != nil
+//@   assigns map:map[types.SiacoinOutputID]time.Time
+//@   loop "range ids"
+//@     invariant sw == old(sw) && sw.locked == old(sw.locked)
+//@     invariant [set] forall k int :: { ids[k] } 0 <= k && k <= rangeindex ==> (ids[k] in sw.locked) && sw.locked[ids[k]] == expirationTimestamp
+//@     invariant [rest] forall id types.SiacoinOutputID :: { id in sw.locked } (forall k int :: { ids[k] } 0 <= k && k < len(ids) ==> ids[k] != id) ==> ((id in sw.locked) <==> loopentry(id in sw.locked)) && sw.locked[id] == loopentry(sw.locked[id])
+//@   ensures [reserved] forall k int :: { ids[k] } 0 <= k && k < len(ids) ==> (ids[k] in sw.locked) && sw.locked[ids[k]] == time.Now().Add(sw.cfg.ReservationDuration)
+//@   ensures [others] forall id types.SiacoinOutputID :: { id in sw.locked } (forall k int :: { ids[k] } 0 <= k && k < len(ids) ==> ids[k] != id) ==> ((id in sw.locked) <==> (old(id in sw.locked) && !time.Now().After(old(sw.locked[id])))) && (id in sw.locked ==> sw.locked[id] == old(sw.locked[id]))
+//
+// ReleaseInputs ends the reservation of every input of the given transactions and of nothing
+// that has not expired.
+//@ func (*SingleAddressWallet).ReleaseInputs props C07
+//@   nopanic
+//@   requires sw != nil
+//@   loop "range txns"
+//@     invariant sw == old(sw) && sw.locked == old(sw.locked)
+//@     invariant [shrink] forall id types.SiacoinOutputID :: { id in sw.locked } id in sw.locked ==> old(id in sw.locked) && sw.locked[id] == old(sw.locked[id])
+//@     invariant [released] forall q int, j int :: { txns[q].SiacoinInputs[j] } 0 <= q && q <= rangeindex && 0 <= j && j < len(txns[q].SiacoinInputs) ==> !(txns[q].SiacoinInputs[j].ParentID in sw.locked)
+//@     invariant [kept] forall id types.SiacoinOutputID :: { old(id in sw.locked) } old(id in sw.locked) && !(id in sw.locked) ==> exists q int, j int :: 0 <= q && q <= rangeindex && 0 <= j && j < len(txns[q].SiacoinInputs) && txns[q].SiacoinInputs[j].ParentID == id
+//@   loop "range txn.SiacoinInputs"
+//@     invariant sw == old(sw) && sw.locked == old(sw.locked)
+//@     invariant [shrink] forall id types.SiacoinOutputID :: { id in sw.locked } id in sw.locked ==> loopentry(id in sw.locked) && sw.locked[id] == loopentry(sw.locked[id])
+//@     invariant [released] forall j int :: { txn.SiacoinInputs[j] } 0 <= j && j <= rangeindex ==> !(txn.SiacoinInputs[j].ParentID in sw.locked)
+//@     invariant [kept] forall id types.SiacoinOutputID :: { loopentry(id in sw.locked) } loopentry(id in sw.locked) && !(id in sw.locked) ==> exists j int :: 0 <= j && j <= rangeindex && txn.SiacoinInputs[j].ParentID == id
+//@   loop "range v2txns"
+//@     invariant sw == old(sw) && sw.locked == old(sw.locked)
+//@     invariant [shrink] forall id types.SiacoinOutputID :: { id in sw.locked } id in sw.locked ==> old(id in sw.locked) && sw.locked[id] == old(sw.locked[id])
+//@     invariant [released-v1] forall q int, j int :: { txns[q].SiacoinInputs[j] } 0 <= q && q < len(txns) && 0 <= j && j < len(txns[q].SiacoinInputs) ==> !(txns[q].SiacoinInputs[j].ParentID in sw.locked)
+//@     invariant [released] forall q int, j int :: { v2txns[q].SiacoinInputs[j] } 0 <= q && q <= rangeindex && 0 <= j && j < len(v2txns[q].SiacoinInputs) ==> !(v2txns[q].SiacoinInputs[j].Parent.ID in sw.locked)
+//@   loop "range txn.SiacoinInputs" #2
+//@     invariant sw == old(sw) && sw.locked == old(sw.locked)
+//@     invariant [shrink] forall id types.SiacoinOutputID :: { id in sw.locked } id in sw.locked ==> loopentry(id in sw.locked) && sw.locked[id] == loopentry(sw.locked[id])
+//@     invariant [released] forall j int :: { txn.SiacoinInputs[j] } 0 <= j && j <= rangeindex ==> !(txn.SiacoinInputs[j].Parent.ID in sw.locked)
+//@   ensures [released-v1] forall q int, j int :: { txns[q].SiacoinInputs[j] } 0 <= q && q < len(txns) && 0 <= j && j < len(txns[q].SiacoinInputs) ==> !(txns[q].SiacoinInputs[j].ParentID in sw.locked)
+//@   ensures [released-v2] forall q int, j int :: { v2txns[q].SiacoinInputs[j] } 0 <= q && q < len(v2txns) && 0 <= j && j < len(v2txns[q].SiacoinInputs) ==> !(v2txns[q].SiacoinInputs[j].Parent.ID in sw.locked)
+//@   ensures [no-new] forall id types.SiacoinOutputID :: { id in sw.locked } id in sw.locked ==> old(id in sw.locked) && sw.locked[id] == old(sw.locked[id])
+//
+// Funding: the transaction gains exactly the selected inputs, plus one change output to the
+// wallet worth inputs - amount when that is positive; the selected outputs become reserved; a
+// failing request leaves the transaction and the reservations as they were.
+//@ extern types.StandardUnlockConditions pure
+//@ iface SingleAddressStore.Tip
+//@   assigns nothing
+//
+//@ func (*SingleAddressWallet).FundTransaction props C07
+//@   nopanic
+//@   requires sw != nil && sw.cm != nil && sw.store != nil && sw.locked != nil && txn != nil
+//@   requires [config] sw.cfg.MaxDefragUTXOs >= 0
+//@   loop "range selected"
+//@     invariant sw == old(sw) && txn == old(txn)
+//@     invariant [frame] frameRows(txn.SiacoinInputs, toSign, toLock)
+//@     invariant [outputs] txn.SiacoinOutputs == loopentry(txn.SiacoinOutputs)
+//@     invariant [count] len(txn.SiacoinInputs) == old(len(txn.SiacoinInputs)) + rangeindex + 1 && len(toLock) == rangeindex + 1 && len(toSign) == rangeindex + 1
+//@     invariant [kept] forall k int :: { txn.SiacoinInputs[k] } 0 <= k && k < old(len(txn.SiacoinInputs)) ==> txn.SiacoinInputs[k] == old(txn.SiacoinInputs[k])
+//@     invariant [added] forall k int :: { selected[k] } 0 <= k && k <= rangeindex ==> txn.SiacoinInputs[old(len(txn.SiacoinInputs)) + k].ParentID == selected[k].ID && toLock[k] == selected[k].ID && toSign[k] == types.Hash256(selected[k].ID)
+//@   ensures [zero] cval(amount) == 0 ==> result1 == nil && len(result0) == 0 && *txn == old(*txn)
+//@   ensures [failed] result1 != nil ==> *txn == old(*txn) && (forall id types.SiacoinOutputID :: { id in sw.locked } ((id in sw.locked) <==> old(id in sw.locked)) && sw.locked[id] == old(sw.locked[id]))
+//@   ensures [inputs] result1 == nil && cval(amount) > 0 ==> len(txn.SiacoinInputs) == old(len(txn.SiacoinInputs)) + len(callres("selectUTXOs", 1)) && len(result0) == len(callres("selectUTXOs", 1))
+//@            && (forall k int :: { callres("selectUTXOs", 1)[k] } 0 <= k && k < len(callres("selectUTXOs", 1)) ==> txn.SiacoinInputs[old(len(txn.SiacoinInputs)) + k].ParentID == callres("selectUTXOs", 1)[k].ID && result0[k] == types.Hash256(callres("selectUTXOs", 1)[k].ID))
+//@   ensures [kept] result1 == nil ==> forall k int :: { txn.SiacoinInputs[k] } 0 <= k && k < old(len(txn.SiacoinInputs)) ==> txn.SiacoinInputs[k] == old(txn.SiacoinInputs[k])
+//@   ensures [change] result1 == nil && cval(amount) > 0 && cval(callres("selectUTXOs", 2)) > cval(amount) ==> len(txn.SiacoinOutputs) == old(len(txn.SiacoinOutputs)) + 1
+//@            && txn.SiacoinOutputs[old(len(txn.SiacoinOutputs))].Address == sw.addr && cval(txn.SiacoinOutputs[old(len(txn.SiacoinOutputs))].Value) + cval(amount) == cval(callres("selectUTXOs", 2))
+//@   ensures [no-change] result1 == nil && cval(amount) > 0 && cval(callres("selectUTXOs", 2)) <= cval(amount) ==> txn.SiacoinOutputs == old(txn.SiacoinOutputs)
+//@   ensures [reserved] result1 == nil && cval(amount) > 0 ==> forall k int :: { callres("selectUTXOs", 1)[k] } 0 <= k && k < len(callres("selectUTXOs", 1)) ==> (callres("selectUTXOs", 1)[k].ID in sw.locked) && sw.locked[callres("selectUTXOs", 1)[k].ID] == time.Now().Add(sw.cfg.ReservationDuration)
+//
+//@ func (*SingleAddressWallet).FundV2Transaction props C07
+//@   nopanic
+//@   requires sw != nil && sw.cm != nil && sw.store != nil && sw.locked != nil && txn != nil
+//@   requires [config] sw.cfg.MaxDefragUTXOs >= 0
+//@   loop "range selected"
+//@     invariant sw == old(sw) && txn == old(txn)
+//@     invariant [frame] frameRows(txn.SiacoinInputs, toSign, toLock)
+//@     invariant [outputs] txn.SiacoinOutputs == loopentry(txn.SiacoinOutputs)
+//@     invariant [count] len(txn.SiacoinInputs) == old(len(txn.SiacoinInputs)) + rangeindex + 1 && len(toLock) == rangeindex + 1 && len(toSign) == rangeindex + 1
+//@     invariant [kept] forall k int :: { txn.SiacoinInputs[k] } 0 <= k && k < old(len(txn.SiacoinInputs)) ==> txn.SiacoinInputs[k] == old(txn.SiacoinInputs[k])
+//@     invariant [added] forall k int :: { selected[k] } 0 <= k && k <= rangeindex ==> txn.SiacoinInputs[old(len(txn.SiacoinInputs)) + k].Parent.ID == selected[k].ID && txn.SiacoinInputs[old(len(txn.SiacoinInputs)) + k].Parent.SiacoinOutput == selected[k].SiacoinOutput && toLock[k] == selected[k].ID && toSign[k] == old(len(txn.SiacoinInputs)) + k
+//@   ensures [zero] cval(amount) == 0 ==> len(result1) == 0 && *txn == old(*txn)
+//@   ensures [failed] result2 != nil ==> *txn == old(*txn) && (forall id types.SiacoinOutputID :: { id in sw.locked } ((id in sw.locked) <==> old(id in sw.locked)) && sw.locked[id] == old(sw.locked[id]))
+//@   ensures [inputs] result2 == nil && cval(amount) > 0 ==> len(txn.SiacoinInputs) == old(len(txn.SiacoinInputs)) + len(callres("selectUTXOs", 1)) && len(result1) == len(callres("selectUTXOs", 1))
+//@            && (forall k int :: { callres("selectUTXOs", 1)[k] } 0 <= k && k < len(callres("selectUTXOs", 1)) ==> txn.SiacoinInputs[old(len(txn.SiacoinInputs)) + k].Parent.ID == callres("selectUTXOs", 1)[k].ID && txn.SiacoinInputs[old(len(txn.SiacoinInputs)) + k].Parent.SiacoinOutput == callres("selectUTXOs", 1)[k].SiacoinOutput && result1[k] == old(len(txn.SiacoinInputs)) + k)
+//@   ensures [kept] result2 == nil ==> forall k int :: { txn.SiacoinInputs[k] } 0 <= k && k < old(len(txn.SiacoinInputs)) ==> txn.SiacoinInputs[k] == old(txn.SiacoinInputs[k])
+//@   ensures [change] result2 == nil && cval(amount) > 0 && cval(callres("selectUTXOs", 2)) > cval(amount) ==> len(txn.SiacoinOutputs) == old(len(txn.SiacoinOutputs)) + 1
+//@            && txn.SiacoinOutputs[old(len(txn.SiacoinOutputs))].Address == sw.addr && cval(txn.SiacoinOutputs[old(len(txn.SiacoinOutputs))].Value) + cval(amount) == cval(callres("selectUTXOs", 2))
+//@   ensures [no-change] result2 == nil && cval(amount) > 0 && cval(callres("selectUTXOs", 2)) <= cval(amount) ==> txn.SiacoinOutputs == old(txn.SiacoinOutputs)
+//@   ensures [reserved] result2 == nil && cval(amount) > 0 ==> forall k int :: { callres("selectUTXOs", 1)[k] } 0 <= k && k < len(callres("selectUTXOs", 1)) ==> (callres("selectUTXOs", 1)[k].ID in sw.locked) && sw.locked[callres("selectUTXOs", 1)[k].ID] == time.Now().Add(sw.cfg.ReservationDuration)
+//@   ensures [basis] result2 == nil && cval(amount) > 0 ==> result0 == callres("selectUTXOs", 0)
